@@ -7,22 +7,22 @@ HERE = os.path.dirname(os.path.abspath(__file__))
 # id -> (level, technique, text, note)   (only implemented checks are listed; the rest go to not_applicable)
 CHECKS = {
     "C18": ("model_checking",
-            "exhaustive enumeration of dangling-reference placements: every listed entry site of a rich document x 3 dangling classes x 2 xref formats x 4 configurations (differential against the document with the entry removed), and every field of the 45-model table x 3 classes x 2 modes inside real files",
+            "exhaustive enumeration of dangling-reference placements: every listed entry site of a two-revision rich document x 6 dangling classes (free entry, beyond /Size, gap, freed by an update with the generation incremented / kept, equal to /Size but listed) x 2 xref formats x 4 configurations (differential against the document with the entry removed), and every field of the 45-model table x 3 classes x 2 modes inside real files",
             "Each optional entry (typed options, defaulted entries, maps and their values, array elements, lazily loaded and eagerly resolved carriers) is pointed at a free entry, a number beyond /Size and a number in a gap; the complete walk must equal the walk with the entry removed; required entries must give an error naming the entry and never a panic. Full product of the listed sites and classes.",
             "Trusted: the site list and the model table (the latter guarded against the sources). Carriers that the typed object does not interpret (plain Ref, raw Primitive, catch-all entries) can only be required not to break the load.",
             "§5 C18"),
     "C15": ("model_checking",
-            "deviation-bounded exhaustive exploration of field assignments of 45 typed models (absent/default/other per field, all enum variants, nested models, unknown keys, int-vs-real spelling) through the real reader and writer on a real Storage",
+            "deviation-bounded exhaustive exploration of field assignments of 47 typed models (absent/default/other per field incl. reals beyond 32 bits, all enum variants, nested models, unknown keys, int-vs-real spelling) and of typed streams over 14 filter chains through the real reader and writer on a real Storage",
             "For every model that can be read and written the explorer enumerates all dictionaries within 5 (quick) / 8 (thorough) field deviations of the minimal valid one; oracle p0 -> T -> p1 -> T -> p2 with p1 == p2, and for catch-all models every input entry preserved (recursively, up to omitted defaults, int == real, equal dates). A guard keeps the table in step with the #[pdf(key)] attributes in the sources.",
             "Trusted: the harness-side model table (checked against the sources by the guard). Writers that are unimplemented (NameTree, Function, ColorSpace) are outside the property; fields needing resolvable targets stay absent.",
             "§5 C15"),
     "C01": ("fault_enumeration",
-            "exhaustive enumeration of the single-fault edit neighbourhood (every byte substitution over an alphabet at every offset, every truncation / prefix drop, every number token replaced by boundary tokens; thorough: deletions, insertions, entry deletion/duplication, all numbers of the file, fault pairs in the trailer region) of a seed set, each walked completely in worker processes under all configurations",
+            "exhaustive enumeration of the single-fault edit neighbourhood (every byte substitution over an alphabet at every offset, every truncation / prefix drop, every number token replaced by boundary tokens, every small integer array set to every assignment of {0, 1, 2^31-1}, every hexadecimal string token replaced by boundary values, multi-byte UTF-8 characters inserted at / written over every offset of every literal string; thorough: deletions, insertions, entry deletion/duplication, all numbers of the file, fault pairs in the trailer region) of a seed set, plus the hand-built hostile structures of C14 as they are, each walked completely in worker processes under all configurations",
             "'All byte strings' cannot be enumerated; what is enumerated completely is the stated neighbourhood of generated seeds (one per structural feature) and of the corpus crash files. Every faulted input is opened strict/tolerant x cached/uncached and every read entry point is exercised by the walker inside a worker process so that panics, stack overflows, aborts, allocation failures and hangs are observed and attributed to one input.",
             "Trusted: walker reaches the entry points of the property; fixed thresholds (10 s, 3 GiB). No claim beyond the neighbourhoods.",
             "§5 C01"),
     "C14": ("fault_enumeration",
-            "exhaustive enumeration of single structural faults (every reference occurrence re-pointed at every object / undefined / beyond-size number; every integer occurrence set to 8 boundary values), all pairs of re-wirings inside 9 structural fragments and 60 special structures, each walked completely in a worker process under 4 configurations",
+            "exhaustive enumeration of single structural faults (every reference occurrence re-pointed at every object / undefined / beyond-size number; every integer occurrence set to 11 boundary values; every string emptied / halved / doubled; every value position replaced by a reference to a self-referencing object, a reference cycle, the containing object or an externalised copy), all pairs of re-wirings inside 9 structural fragments and about 900 special structures (xref /W product, offsets near 2^64, object-stream offset pairs, /Parent chains ending in errors, giant strings), each walked completely in a worker process under 4 configurations",
             "The fault space over the base documents is enumerated completely (not sampled): cycles through every followed field, self-containing object streams, /Prev loops, nesting to 200000, boundary numbers in every numeric field incl. encryption, predictor, xref and function parameters. Workers make stack overflow, abort, allocation failure (3 GiB limit) and hangs (10 s) observable and attributable to one case.",
             "Trusted: the walker reaches the entry points named by the property; thresholds for 'out of proportion' are fixed (10 s / 3 GiB for ~10 KB files). Faults beyond two simultaneous re-wirings are not enumerated.",
             "§5 C14"),
@@ -32,9 +32,9 @@ CHECKS = {
             "Trusted: scheduling points suffice because the only shared mutable state is the guard stack behind its mutex (under the feature a schedulable mutex with a point inside each critical section, so lock/try_lock contention is explored) and the caches; VerifCache is bound to globalcache's SyncCache::get by source hash and by sequential trace comparison (plus a non-deciding free-running run in thorough). once_cell in Lazy::load is not covered.",
             "§5 C13"),
     "C12": ("model_checking",
-            "exhaustive enumeration of read-call sequences (all sequences up to length 3 over a 40-call alphabet, all permutations of the calls per object) x 5 cache configurations on real documents, each answer compared with the same call alone on a fresh uncached document",
+            "exhaustive enumeration of read-call sequences (all sequences up to length 3 over a 40-call alphabet, all permutations of the calls per object, all ordered pairs over a wide alphabet of every typed view and resolve on every object) x 5 cache configurations on real documents, plus complete cached-vs-uncached walks of the repository corpus, each answer compared with the same call alone on a fresh uncached document",
             "The answer to a call must not depend on history or cache configuration: every sequence of <=2 calls under five configurations (SyncCache both / object only / stream only / own map-backed caches / none), every sequence of 3 under two (thorough: all) configurations and every ordering of the distinct calls on one object are executed on the real library; digests are canonical (no HashMap order, no offsets).",
-            "Trusted: digest functions. The call alphabet is fixed (typed loads as 5 types incl. mismatches, stream data, image data before/after the codec, page look-ups); longer sequences are not enumerated.",
+            "Trusted: digest functions. The call alphabets are fixed (typed loads as 8 types incl. mismatches and the generic Primitive / Dictionary / i32 views, stream data, image data before/after the codec, page look-ups); longer sequences are not enumerated.",
             "§5 C12"),
     "C10": ("model_checking",
             "deviation-bounded exhaustive exploration of PdfBuilder inputs (pages, operation sets, boxes, rotation, extras, resources, info) with two oracles per build: a reload through the library and an independent structural reader",
@@ -42,8 +42,8 @@ CHECKS = {
             "Trusted: the independent reader (refread.rs) and the C08 canonical comparator. More than 3 pages or more simultaneous deviations are not covered.",
             "§5 C10"),
     "C09": ("model_checking",
-            "exhaustive enumeration of all operation histories up to depth 3 (quick) / 4 (thorough) over a 22-symbol alphabet on a real Storage x 4 base files x cached/uncached, checked step by step against a map reference model, an independent structural reader and a reload",
-            "Every history of create/update/promise/fulfil/typed read/save/unserialisable-update/repair is executed on the real Storage and Updater; after each step all tracked references are read (resolve and cached typed get incl. Stream::data); after each save: prefix preservation, independent structural validation and value comparison, reload and comparison of written and untouched objects; failing saves must fail cleanly and not wedge the document.",
+            "exhaustive enumeration of all operation histories up to depth 4 (quick) / 5 (thorough) over a 26-symbol alphabet on a real Storage x 4 base files x cached/uncached, and of all histories of <=3 operations + save through the File interface (save_to a path, reload), checked step by step against a map reference model, an independent structural reader and a reload",
+            "Every history of create (plain values and a typed value whose conversion creates a second object) / update (direct, compressed, stream, created, fulfilled objects, object 0, a number that is free in one base) / promise / fulfil / typed read / save / unserialisable-update / repair is executed on the real Storage and Updater; after each step all tracked references are read (resolve and cached typed get incl. Stream::data); after each save: prefix preservation, independent structural validation and value comparison, reload and comparison of written and untouched objects; failing saves must fail cleanly and not wedge the document.",
             "Trusted: reference model (BTreeMap), the independent reader. Known finding: repeated dictionary updates merge. Histories longer than the depth bound are not covered.",
             "§5 C09"),
     "C08": ("model_checking",
@@ -62,7 +62,7 @@ CHECKS = {
             "Trusted: the structural reader and the deep comparison; documents are the generated rich document family and the repository corpus; /ProcSet and inherited page-tree attributes the operations do not use are outside the comparison.",
             "§5 C20"),
     "C06": ("model_checking",
-            "deviation-bounded exhaustive exploration of encryption configurations (17 handler variants x <=2/<=3 deviations of passwords, permissions, ID, flags, object ids, lengths, spellings), documents produced by an independent encryptor and read with the real library under correct and wrong passwords",
+            "deviation-bounded exhaustive exploration of encryption configurations (17 handler variants x <=2/<=3 deviations of passwords incl. 127/128-byte and multi-byte-at-the-limit ones, permissions, ID, flags, object ids, lengths, spellings) and a sweep of 6 key-derivation variants x 256 password pairs, documents produced by an independent encryptor and read with the real library under correct and wrong passwords",
             "Each configuration is materialised as a file by an encryptor written from the specification (validated against 10 third-party fixtures), opened with user and owner password (all strings, streams, metadata, compressed strings and the encryption dictionary's own strings compared with plaintext) and with wrong passwords (must be InvalidPassword).",
             "Trusted: harness encryptor + md5/sha2/aes/cbc crates. Public-key handlers, /StrF != /StmF, named crypt filters outside the property. Bound on simultaneous deviations.",
             "§5 C06"),
@@ -82,9 +82,9 @@ CHECKS = {
             "Trusted: the assembler's object-stream writer. Bound: <=1 (quick) / <=2 (thorough) simultaneous deviations of filter/padding/neighbours.",
             "§5 C11"),
     "C02": ("model_checking",
-            "exhaustive enumeration of update histories (all sequences of <=3 xref sections over <=3 object numbers, every entry state and section format) generated as real files, loaded by the real reader and compared with a map-based reference model of 'newest mention wins'",
+            "exhaustive enumeration of update histories (all sequences of <=3 xref sections over <=3 object numbers, every entry state and section format, layout options: low object numbers, free-list head not restated, three styles of free entry) and of long chains (4..24 sections rewriting the same three objects x format patterns x xref-stream numbering x cached/uncached) generated as real files, loaded by the real reader and compared with a map-based reference model of 'newest mention wins'",
             "The history space (sections x format x per-object {absent, direct, compressed, free}) is a full product; every history, including every prefix length, is materialised by the independent assembler and every object number below /Size is resolved through the library and compared with the reference model; free/undefined numbers must give a free/missing error; trailer root/size/ID must be the newest section's.",
-            "Trusted: the assembler's well-formedness (generation bump on free/re-use, compressed only at generation 0 in stream sections). Hybrid /XRefStm files are not generated. More than 3 sections / 3 object numbers not covered.",
+            "Trusted: the assembler's well-formedness (compressed only at generation 0 in stream sections, a number freed for good is never re-used). Hybrid /XRefStm files are not generated. Beyond 3 sections only the long-chain patterns are covered.",
             "§5 C02"),
     "C04": ("model_checking",
             "exhaustive value sweeps (all 1-2 byte strings, every Unicode scalar as a name, all 2^32 integers and all finite f32 in thorough) x writer placements, each serialised by the real writer and read back by the real parser",
@@ -102,7 +102,7 @@ CHECKS = {
             "Trusted: harness encoders (self-tested). Longer data and geometries beyond Colors<=4, Columns<=5, 3 rows are not enumerated. DCT/CCITT/JBIG2/JPX outside the property.",
             "§5 C05"),
     "C16": ("model_checking",
-            "exhaustive enumeration of all short byte strings x filters (bounded input-space model checking on the real encoder/decoder) with an independent reference decoder as oracle",
+            "exhaustive enumeration of all short byte strings x filters and parameter variants (bounded input-space model checking on the real encoder/decoder) with an independent reference decoder as oracle",
             "All byte strings of length <=2 (quick) / <=3 (thorough) x 4 encodable filters are enumerated completely and run through the real encode/decode pair and an independent reference decoder; structured long buffers extend the bound. Exhaustive within the stated bound, no sampling in the deciding part.",
             "Trusted: the harness's own reference decoders (validated by the self-test against spec examples); values beyond the enumerated lengths are covered only by the structured buffers.",
             "§5 C16"),
